@@ -14,6 +14,7 @@ PROP = {
         {"name": "printf_grid", "mode": "enum", "tiers": ["thorough"]},
         {"name": "printf_grid", "mode": "enum", "tiers": ["quick"], "enum_limit_quick": 0},
         {"name": "printf_int", "quick": 1500000, "thorough": 20000000, "maxlen": 160},
+        {"name": "printf_reentrant", "quick": 400000, "thorough": 5000000, "maxlen": 160},
         {"name": "printf_wide", "quick": 300000, "thorough": 4000000, "maxlen": 64},
     ],
     "fuzz": [{"name": "printf_int", "secs": 90, "maxlen": 160}],
